@@ -26,7 +26,27 @@ def variant(wd, name, repl, inv):
     return inv
 
 
+def _keep_evidence(replay):
+    """A --replay run re-executes one case: it must not replace the evidence of the last full run."""
+    path = os.path.join(vlib.VERIF, "evidence", PID + ".json")
+    return (path, open(path).read()) if replay and os.path.exists(path) else None
+
+
+def _restore_evidence(kept):
+    if kept:
+        with open(kept[0], "w") as f:
+            f.write(kept[1])
+
+
 def run(tier, seed, replay=None):
+    kept = _keep_evidence(replay)
+    try:
+        return _run(tier, seed, replay)
+    finally:
+        _restore_evidence(kept)
+
+
+def _run(tier, seed, replay=None):
     wd = vlib.workdir(PID)
     v = vlib.Verdict(PID, tier, seed)
     cfg = "WorkUnit_crash.cfg" if tier == "quick" else "WorkUnit_crash_full.cfg"
@@ -85,7 +105,7 @@ def run(tier, seed, replay=None):
                 "daemon|runner, workload driven until the process dies, restart on the same data directory, work list/status/results compared with the "
                 "Durable policy (plus one 'unit on disk only' scenario); distinct_nontrivial = distinct (workload, role, point, k[, second point]) at which the "
                 "selected process really died (experiments whose point was not reached in that run are not counted)",
-        "samples": res["samples"][:6], "exhaustive": tier != "quick" and not replay,
+        "samples": (res.get("samples") or [])[:6], "exhaustive": tier != "quick" and not replay,
         "points_found_by_dry_runs": ex.get("points_total"), "points_per_workload": ex.get("points_per_workload"),
         "points_selected": ex.get("points_selected"), "crash_windows": ex.get("classes"), "not_reached": ex.get("not_reached"),
         "inconclusive_experiments": res.get("inconclusive") or [],
